@@ -30,6 +30,7 @@ structure Obj where
   registered : Bool := false   -- the IO registry holds the slot
   tstate : TState := .ready    -- timers
   cancelled : Bool := false
+  cancelledRep : Bool := false  -- a successful Cancel happened since the running repeating callback started (`cancels` counter)
   rep : Bool := false
   deriving Repr, DecidableEq, Inhabited
 
@@ -135,7 +136,7 @@ def applyAfter (w : World) (op : Nat) : After → World
     | none => w
     | some o =>
       if !rep || o.kind != .timer then w
-      else if o.cancelled then setObj w { o with cancelled := false }
+      else if o.cancelled || o.cancelledRep then setObj w { o with cancelled := false, cancelledRep := false }
       else if o.tstate == .ready then armTimer w o op true       -- ScheduleOnce(repeat, ccb)
       else w                                                      -- ErrCancelled, ignored by ccb
 
@@ -155,7 +156,7 @@ def pollDispatch (w : World) (op : Nat) (rest : List K) : Option World :=
         if info.kind.isTimer then
           if o.kind == .timer && o.evR && o.hR == op then
             -- timer handler: DelRead by the poller, then `delete pendingTimers; state = ready; cb()`
-            let w := setObj { w with pending := w.pending - 1 } { o with evR := false, tstate := .ready }
+            let w := setObj { w with pending := w.pending - 1 } { o with evR := false, tstate := .ready, cancelledRep := false }
             some { w with stack := .user op (.timerDone o.id (info.kind == .timerRep)) :: .pollCall true :: rest }
           else none
         else if o.kind == .timer then none
@@ -265,7 +266,7 @@ def step (w : World) (e : Ev) : Option World :=
       if !isNil || o.kind != .timer then none
       else if o.tstate == .closed then some { w with stack := rest }
       else
-        some { (setObj (unsetPending w o) { o with evR := false, cancelled := true, tstate := .ready }) with stack := rest }
+        some { (setObj (unsetPending w o) { o with evR := false, cancelled := true, cancelledRep := true, tstate := .ready }) with stack := rest }
   | .scheduledCall k :: rest, .ret (.bool b) =>
     match getObj w k with
     | none => none
